@@ -134,21 +134,29 @@ Skip == /\ Rec[l].e \in {"api", "tick"} /\ mode \in {"skip", "done"}
         /\ UNCHANGED mode
         /\ l' = l + 1 /\ UNCHANGED <<s, base, beh>>
 
-\* candidates: the model's successor for every HashMap order; accepted = one whose projection equals the observation
-Judge(e, cands, expired) ==
+\* The model's successor is computed for one HashMap order after the other until one reproduces the observation (usually
+\* the first: the order only matters when several targets send in the same tick).
+OrderSeq == <<<<"A", "B", "S">>, <<"B", "A", "S">>, <<"S", "A", "B">>, <<"A", "S", "B">>, <<"B", "S", "A">>, <<"S", "B", "A">>>>
+RECURSIVE Search(_, _, _, _, _)
+Search(o, mk(_), expired, i, n) ==
+  LET m == mk(i) IN
+  IF Diff(o, Proj(m, expired)) = {} THEN [ok |-> TRUE, m |-> m]
+  ELSE IF i >= n THEN [ok |-> FALSE, m |-> mk(1)]
+  ELSE Search(o, mk, expired, i + 1, n)
+
+Judge(e, mk(_), n, expired) ==
   LET o == Obs(e.proj)
-      good == {m \in cands : Diff(o, Proj(m, expired)) = {}}
-      any == CHOOSE m \in cands : TRUE
-      d == Diff(o, Proj(any, expired))
+      r == Search(o, mk, expired, 1, n)
+      d == IF r.ok THEN {} ELSE Diff(o, Proj(r.m, expired))
       \* C09: the datagram read in this tick answers a request that had already expired, and the node's state differs from the
       \* model's - in which expired replies only leave the in-flight table - in a core field
-      lateEffect == good = {} /\ e.e = "tick" /\ e.input.dir = "resp" /\ e.input.tid \in SeqSet(e.expired) /\ TouchesCore(d)
+      lateEffect == ~r.ok /\ e.e = "tick" /\ e.input.dir = "resp" /\ e.input.tid \in SeqSet(e.expired) /\ TouchesCore(d)
       f == L1(e) \cup (IF lateEffect THEN {"C09_ExpiredIgnored"} ELSE {})
   IN /\ IF f # {} THEN PrintT(<<"VIOL", ToJson([line |-> l, b |-> beh, failed |-> f, step |-> e.e])>>) /\ mode' = "done"
-        ELSE IF good = {}
+        ELSE IF ~r.ok
              THEN PrintT(<<"DRIFT", ToJson([line |-> l, b |-> beh, step |-> e.e, fields |-> DiffNames(d)])>>) /\ mode' = "skip"
              ELSE mode' = "ok"
-     /\ s' = IF good # {} THEN CHOOSE m \in good : TRUE ELSE any
+     /\ s' = r.m
 
 ExpSet(e) == {x - base : x \in SeqSet(e.expired)}
 
@@ -156,7 +164,8 @@ Api == /\ Rec[l].e = "api" /\ mode = "ok"
        /\ LET e == Rec[l]
               pre == [s EXCEPT !.mbox = <<e.call>>, !.called = @ \cup {e.call}]
               m == [HandleApi(pre, e.t_ms) EXCEPT !.net = {}]
-          IN Judge(e, {m}, ExpSet(e))
+              mk(i) == m
+          IN Judge(e, mk, 1, ExpSet(e))
        /\ l' = l + 1 /\ UNCHANGED <<base, beh>>
 
 TickStep == /\ Rec[l].e = "tick" /\ mode = "ok"
@@ -164,8 +173,8 @@ TickStep == /\ Rec[l].e = "tick" /\ mode = "ok"
                    input == IF e.input.dir = "timeout" THEN NoIn
                             ELSE [dir |-> "resp", tid |-> e.input.tid - base, peer |-> e.input.peer, kind |-> e.input.kind,
                                   val |-> e.input.val, code |-> e.input.code]
-                   cands == {[Tick(s, input, e.t_ms, ExpSet(e), ord) EXCEPT !.net = {}] : ord \in Orders}
-               IN Judge(e, cands, ExpSet(e))
+                   mk(i) == [Tick(s, input, e.t_ms, ExpSet(e), OrderSeq[i]) EXCEPT !.net = {}]
+               IN Judge(e, mk, 6, ExpSet(e))
             /\ l' = l + 1 /\ UNCHANGED <<base, beh>>
 
 \* the node died (a panic in the code under test is data)
